@@ -251,9 +251,9 @@ impl Check for C12 {
     fn phases(&self, tier: Tier, b: f64) -> Vec<Phase> {
         let q = tier == Tier::Quick;
         vec![
-            Phase { name: "decode: every entry of a valid map duplicated at every position, valid and arbitrary second values, mixed key encodings, all carriers", cases: scale(if q { 1500 } else { 60000 }, b), exhaustive: false },
-            Phase { name: "decode: label x position-pair matrix for maps of <= 4 entries over the label alphabet", cases: scale(if q { 1500 } else { 40000 }, b), exhaustive: false },
-            Phase { name: "encode: extras repeating a label / naming a populated typed field, in Header, CoseKey, ClaimsSet and nested carriers", cases: scale(if q { 30000 } else { 1000000 }, b), exhaustive: false },
+            Phase { name: "decode: every entry of a valid map duplicated at every position, valid and arbitrary second values, mixed key encodings, all carriers", cases: scale(if q { 7500 } else { 60000 }, b), exhaustive: false },
+            Phase { name: "decode: label x position-pair matrix for maps of <= 4 entries over the label alphabet", cases: scale(if q { 7500 } else { 40000 }, b), exhaustive: false },
+            Phase { name: "encode: extras repeating a label / naming a populated typed field, in Header, CoseKey, ClaimsSet and nested carriers", cases: scale(if q { 150000 } else { 1000000 }, b), exhaustive: false },
             Phase { name: "encode: every typed label of Header (7, with 1 and 2+ counter-signatures), CoseKey (5), ClaimsSet (7) as an extra", cases: 8 + 5 + 7, exhaustive: true },
         ]
     }
